@@ -25,7 +25,8 @@ def rg_tokens(optic):
 
 def gen_case(rng):
     finite = rng.random() < 0.5
-    d = lensgen.gen_lens(rng, finite_object=finite, nsurf=rng.randint(1, 8), allow_mirror=False)
+    # (mirrors: vertices at negative z, which the launch plane of an infinite object has to clear)
+    d = lensgen.gen_lens(rng, finite_object=finite, nsurf=rng.randint(1, 8), allow_mirror=rng.random() < 0.3)
     # vignetting table
     if rng.random() < 0.5:
         for f in d['fields']:
@@ -51,8 +52,17 @@ def gen_case(rng):
         rays.append([r * math.cos(a), r * math.sin(a)])
     rays[0] = [0.0, 0.0]
     rays[1] = [0.0, 1.0]
-    return {'desc': d, 'Hy': rng.choice([0.0, 1.0, -1.0, rng.uniform(-1, 1)]), 'rays': rays,
+    case = {'desc': d, 'Hy': rng.choice([0.0, 1.0, -1.0, rng.uniform(-1, 1)]), 'rays': rays,
             'wi': rng.randint(0, 2)}
+    if finite and rng.random() < 0.3:
+        # the object distance (and sometimes an inner gap) is changed through the public setter before the launch
+        post = [['set_thickness', dyadic(rng, 30, 400, 3), 0]]
+        if len(d['surfaces']) > 3 and rng.random() < 0.5:
+            post.append(['set_thickness', dyadic(rng, 0.5, 20, 4), 1])
+            if rng.random() < 0.5:
+                post.reverse()
+        case['post'] = post
+    return case
 
 
 def impl_generate(optic, Hy, px, py, w):
@@ -110,9 +120,15 @@ def predicate(ctx, optic, case, gen, w):
     obj = optic.object_surface
     Hy = case['Hy']
     try:
-        EPL = float(np.ravel(optic.paraxial.EPL())[0])
-        EPD = float(np.ravel(optic.paraxial.EPD())[0])
+        # entrance pupil located independently of paraxial.py: image of the stop through the surfaces in front of it,
+        # in global coordinates (matrix specification of C04, built from the current vertex positions)
+        from . import c04
+        sp = c04.spec_all(optic)
+        EPL, EPD = float(sp['EPL']), float(sp['EPD'])
+        if not (math.isfinite(EPL) and math.isfinite(EPD)):
+            raise ValueError
     except Exception:
+        ctx.count('pred: no independent entrance pupil (degenerate lens)')
         return
     maxf = float(optic.fields.max_field)
     vx, vy = optic.fields.get_vig_factor(0.0, Hy)
